@@ -30,6 +30,22 @@ CHECKS = {
              "exports each behaviour; the harness executes each behaviour in a process whose registered drafts match (fresh process per history) with "
              "refimpl-forged tokens on the consuming side.",
         note="Trusted: TLC, refimpl as token forge, key pool. Quick tier samples a third of the JWE single calls; thorough runs all."),
+    "C15": dict(
+        cat="model_checking", ref="DESIGN.md section 6 (C15)",
+        technique="TLA+ HeaderCheck spec over the JoseDefs parameter registry: TLC enumerates parameter x JSON type x position x crit x strict x registration x op x serialization; cases replayed on joserfc with refimpl-authenticated tokens",
+        text="HeaderCheck.tla states the acceptance conditions (required members, registry types, crit, b64/crit, strict/unregistered, caller-registered "
+             "parameters) declaratively and as the code's gate sequence; TLC checks the latter against the former over ~155k cases in six algorithm "
+             "families and (thorough) refutes seven named deviations. Every case is executed: producing calls get the concretised header, consuming "
+             "calls get a token that refimpl authenticated over exactly that header, so a rejection can only come from the header check.",
+        note="Trusted: TLC, refimpl forge, value representatives per JSON type class. Quick tier runs all must-succeed/soft cases and a seeded quarter of the must-fail ones."),
+    "C06": dict(
+        cat="model_checking", ref="DESIGN.md section 6 (C06)",
+        technique="TLA+ KeyFit spec (Suitable relation + gate order) over JoseDefs: TLC enumerates alg x key kind x private x use x key_ops x op x path; cases replayed on joserfc incl. MAC-with-public-encoding forgeries",
+        text="KeyFit.tla defines Suitable(alg, op, key) from the statement and the order of the code's gates; TLC checks 'ok => Suitable' over ~45k cases "
+             "(15 JWS and 21 JWE algorithms x 14 key kinds x private/public x use x key_ops x operation x entry-point path x ECDH-1PU sender curve). Each case "
+             "runs against the real library with a pool key of that kind; consume-side tokens come from refimpl, and an HMAC algorithm offered an "
+             "asymmetric verifier gets a MAC keyed with that key's PEM/DER/OpenSSH/JWK public encoding. PEM/OpenSSH text imported as oct must warn.",
+        note="Trusted: TLC, refimpl, key pool. Suitable => success is left to C03/C04 (reported as drift here)."),
 }
 
 NOT_YET = {}
